@@ -389,6 +389,8 @@ Definition is_comparison (op : binop) : bool :=
 Definition binary_node_type (op : binop) (lt rt : ty) : ty :=
   let exp := if is_comparison op then TBool else lt in
   let t := if is_empty_arr exp && is_plus op then rt else exp in      (* array concatenation e.g. [] + [1 2] *)
+  let t := if is_plus op && is_array_name t && equals t rt then merge_fixed t rt else t in
+                                                                       (* [[1]] + [nums]: Fixed flags of both operands at every level *)
   if is_array_name t && fixed rt then fixed_type t else t.            (* [1] + nums: as rigid as nums *)
 
 (* validateBinaryType: true = no error appended *)
